@@ -801,11 +801,15 @@ class TimedStore(typing.Generic[KT]):
         callback(entry, address)
 
     def stop_all_for_address(self, address: _T_SOCKADDR) -> None:
-        for entry, (callback, handle) in self.store[address].items():
+        stopping_entries = list(self.store[address].items())
+        self.store[address].clear()
+        for entry, (callback, handle) in stopping_entries:
             if handle:
                 handle.cancel()
-            asyncio.get_event_loop().call_soon(callback, entry, address)
-        self.store[address].clear()
+            # notify immediately, as stop() does: a deferred notification could be
+            # overtaken by a new offer / subscribe for the same entry that is handled in
+            # the same event loop iteration, which would then be reported out of order
+            callback(entry, address)
 
     def stop_all(self) -> None:
         for addr in self.store.keys():
@@ -834,7 +838,8 @@ class TimedStore(typing.Generic[KT]):
             )
             return
 
-        asyncio.get_event_loop().call_soon(callback, entry, address)
+        # notify immediately (see stop_all_for_address)
+        callback(entry, address)
 
     def entries(self) -> typing.Iterator[KT]:
         return itertools.chain.from_iterable(x.keys() for x in self.store.values())
